@@ -3,7 +3,7 @@
 #   demo passes on the original, fails with the change, the existing suite is unchanged (only the baseline failure).
 # On success copies patch.diff, demo.py, meta.json to /verif/seeded/<name>/ together with confirm.log.
 wt=$1; name=$2
-seed=$wt/_seed
+seed=$wt/${3:-_seed}
 [ -f $seed/patch.diff ] || { echo "no patch"; exit 3; }
 cd $wt
 git checkout -q -- virocon
@@ -13,7 +13,7 @@ log=/tmp/confirm_$name.log
 echo "== original: demo.py"; timeout 600 /venv/bin/python -W ignore $seed/demo.py >/tmp/demo_o_$name.out 2>&1; o=$?; echo "exit $o"; tail -3 /tmp/demo_o_$name.out
 git apply $seed/patch.diff || { echo "patch does not apply"; exit 3; }
 echo "== changed: demo.py"; timeout 600 /venv/bin/python -W ignore $seed/demo.py >/tmp/demo_c_$name.out 2>&1; c=$?; echo "exit $c"; tail -3 /tmp/demo_c_$name.out
-echo "== changed: test suite"; /venv/bin/python -m pytest -q -p no:cacheprovider -n 12 --timeout=900 tests 2>&1 | tail -4 > /tmp/suite_$name.out; cat /tmp/suite_$name.out
+echo "== changed: test suite"; /venv/bin/python -m pytest -q -p no:cacheprovider -n 6 --timeout=900 tests 2>&1 | tail -4 > /tmp/suite_$name.out; cat /tmp/suite_$name.out
 } > $log 2>&1
 o=$(grep -A1 "== original" $log | tail -1); c=$(grep -A1 "== changed: demo" $log | tail -1)
 suite=$(grep -E "passed" /tmp/suite_$name.out | tail -1)
